@@ -1,18 +1,27 @@
-import FiberModel.C08.Lemmas
+import FiberModel.C08.Shape
 /-
 C08 — property theorems (model of the repaired code ⊑ spec), for every configuration, every mount
 table, every iteration order of the map, every path and every chain result / server error. No size
 bound anywhere.
 
 The map `appList` is a list of entries with pairwise different keys; "any iteration order" is "any
-permutation of that list". Keys are told apart as the ROUTER tells mounts apart (`normKey`: leading
-slash added, letter case folded unless CaseSensitive): two apps mounted at "/api" and "/API" of a
-case-insensitive app, or at "api" and "/api", are one mount point to the router (the first one
-registered serves every request), and such tables are outside (hypothesis `Nodup`).
+permutation of that list". Hypothesis `Nodup` everywhere a table is involved: no two apps are
+registered under the same route, i.e. the keys are pairwise different once the leading slash is
+added (`slashKey`: "api" and "/api" are one route; a Go map cannot hold two apps under one key at
+all). Keys that differ in letter case only are told apart (the loop is deterministic for them too).
 
-`_partial` theorems carry the hypothesis `Known.K1 … = false` (known finding K1: parameterised mount
-prefixes); the theorems without it hold for every table (or, where stated, for every table without
-a parameterised prefix).
+`chk` is the verdict function of the parameter constraints (path.go CheckConstraint), universally
+quantified. No theorem carries a known-finding hypothesis any more: K1 (parameterised mount
+prefixes) is repaired in /repo (023a967) and `K1_repaired` evaluates the old and the new loop on its
+former witness.
+
+Readings of a prefix that is a route pattern (Spec): `coversRouter` — fiber's own matcher
+(RoutePatternMatch) on the leading parts of the path, every pattern fiber accepts; `coversPat` — the
+tokens reading written from scratch (whole-segment `:name`). `select_eq_spec_of_reading` is generic
+in the reading; `select_eq_spec_router` instantiates the first for every table, `select_eq_spec`
+the second for every table whose pattern keys are whole-segment parameterised prefixes
+(`modelCover_eq_coversPat_of_wf`, Shape.lean + Tokens.lean: what fiber's parser and matcher do on
+such a key is what the tokens do).
 -/
 namespace C08
 open B C04 C08.Known
@@ -46,165 +55,167 @@ theorem hasMountPrefix_eq_contains (cfg : Cfg) (path k : Bytes) :
     hasMountPrefix cfg path (ensureSlash k) = contains cfg k path :=
   hasMountPrefix_eq_contains' cfg path k
 
-/-- What the loop of `App.ErrorHandler` computes, for EVERY table (parameterised prefixes included):
-the handler of the innermost mounted app that configured one and contains the path literally. -/
-theorem select_eq_literal (cfg : Cfg) (l : List Mounted) (path : Bytes)
-    (hnd : (l.map (fun m => normKey cfg m.pre)).Nodup) :
-    select cfg l path = selectLiteral cfg l path := by
-  unfold selectLiteral
-  rcases select_char cfg l path with ⟨hno, hs⟩ | ⟨x, hbest, hs⟩
-  · have : literalCandidates cfg l path = [] := by
-      apply List.eq_nil_iff_forall_not_mem.mpr
-      intro m hm
-      exact hno m (mem_literalCandidates.mp hm).1 (mem_literalCandidates.mp hm).2
-    rw [hs, this]; rfl
-  · cases hi : innermost cfg path (literalCandidates cfg l path) with
-    | none =>
-      have := innermost_none.mp hi
-      have hx : x ∈ literalCandidates cfg l path := mem_literalCandidates.mpr ⟨hbest.1, hbest.2.1⟩
-      rw [this] at hx; cases hx
-    | some z =>
-      obtain ⟨hz, hzmax⟩ := innermost_some hi
-      have hzc := (mem_literalCandidates.mp hz)
-      have hzb : Best cfg l path z := by
-        refine ⟨hzc.1, hzc.2, ?_⟩
-        intro y hy hcy
-        have := hzmax y (mem_literalCandidates.mpr ⟨hy, hcy⟩)
-        rw [reach_literal (cand_iff_literal.mp hcy).2.2, reach_literal (cand_iff_literal.mp hzc.2).2.2] at this
-        omega
-      have := best_unique hnd hbest hzb
-      subst this
-      rw [hs]; rfl
+/-- **Generic in the reading of pattern prefixes.** Whatever reading `cov` the spec uses for the
+prefixes that are route patterns: if it is what the code computes for the pattern keys of this
+table and this path (`modelCover`: the parser made at startup, matched on the leading parts of the
+context's paths), then the loop of `App.ErrorHandler` returns the spec's choice — the handler of the
+mounted app that configured one and reaches furthest into the path (a plain prefix before a
+pattern that reaches equally far, then the prefix that sorts last: a nested mount's prefix extends
+the prefix of the mount around it). -/
+theorem select_eq_spec_of_reading (chk : C02.Constraint → Bytes → Bool) (cfg : Cfg) (cov : Cover) (l : List Mounted)
+    (path : Bytes) (hnd : (l.map (fun m => slashKey m.pre)).Nodup)
+    (hcov : ∀ m ∈ l, isPattern m.pre = true → modelCover chk cfg m.pre path = cov m.pre path) :
+    select chk cfg l path = selectSpec cfg cov l path :=
+  select_eq_spec_of_cover chk cfg cov l path hnd hcov
 
-example : select ⟨false, false⟩ [⟨[], none⟩, ⟨b "/api", some ⟨1, false⟩⟩, ⟨b "/API-v2", some ⟨2, false⟩⟩,
-      ⟨b "/:t", some ⟨3, false⟩⟩] (b "/Api-V2/x") = some ⟨2, false⟩ := by decide
+/-- every key of the table that is a route pattern declares a parameter (`/:tenant`, `/*`,
+`/v:n?/x`, `/:id<int>` …); outside are only keys that escape characters without declaring any
+(`/a\:b`) -/
+def ParamKeys (cfg : Cfg) (l : List Mounted) : Prop :=
+  ∀ m ∈ l, isPattern m.pre = true → keyHasParams cfg m.pre = true
 
-/-- Outside the region of known finding K1 the loop of `App.ErrorHandler` computes the spec's
-choice: the handler of the innermost mounted app that configured one and whose prefix — read as
-the router reads it — contains the path on a segment boundary.
-Full statement (false on the unchanged tree, see `select_eq_spec_witness_K1`):
-  ∀ cfg l path, Nodup keys → select cfg l path = selectSpec cfg l path. -/
-theorem select_eq_spec_partial (cfg : Cfg) (l : List Mounted) (path : Bytes)
-    (hnd : (l.map (fun m => normKey cfg m.pre)).Nodup) (hK : K1 cfg l path = false) :
-    select cfg l path = selectSpec cfg l path := by
-  unfold selectSpec
-  cases hi : innermost cfg path (candidates cfg l path) with
-  | none =>
-    have hnil := innermost_none.mp hi
-    rcases select_char cfg l path with ⟨_, hs⟩ | ⟨x, hbest, _⟩
-    · rw [hs]; rfl
-    · have hc := cand_iff_literal.mp hbest.2.1
-      have : x ∈ candidates cfg l path := mem_candidates.mpr ⟨hbest.1, hc.1, hc.2.1, Or.inl hc.2.2⟩
-      rw [hnil] at this; cases this
-  | some z =>
-    obtain ⟨hz, hzmax⟩ := innermost_some hi
-    have hzl : contains cfg z.pre path = true := by
-      unfold K1 at hK
-      rw [hi] at hK
-      simpa using hK
-    have hzm := mem_candidates.mp hz
-    have hzc : Cand cfg path z := cand_iff_literal.mpr ⟨hzm.2.1, hzm.2.2.1, hzl⟩
-    have hzb : Best cfg l path z := by
-      refine ⟨hzm.1, hzc, ?_⟩
-      intro y hy hcy
-      have hyl := cand_iff_literal.mp hcy
-      have := hzmax y (mem_candidates.mpr ⟨hy, hyl.1, hyl.2.1, Or.inl hyl.2.2⟩)
-      rw [reach_literal hyl.2.2, reach_literal hzl] at this
-      omega
-    rcases select_char cfg l path with ⟨hno, _⟩ | ⟨x, hbest, hs⟩
-    · exact absurd hzc (hno z hzm.1)
-    · have := best_unique hnd hbest hzb
-      subst this
-      rw [hs]; rfl
+instance (cfg : Cfg) (l : List Mounted) : Decidable (ParamKeys cfg l) := by unfold ParamKeys; exact inferInstance
 
-example : K1 ⟨false, false⟩ [⟨[], none⟩, ⟨b "/:t", some ⟨1, false⟩⟩, ⟨b "/acme/sub", some ⟨2, false⟩⟩]
-      (b "/acme/sub/e") = false ∧
-    (([⟨[], none⟩, ⟨b "/:t", some ⟨1, false⟩⟩, ⟨b "/acme/sub", some ⟨2, false⟩⟩] : List Mounted).map
-      (fun m => normKey ⟨false, false⟩ m.pre)).Nodup := by decide
+/-- **Full strength, the router's reading.** For every configuration, every constraint verdict,
+every table (plain, parameterised, wildcard, optional, constrained, mid-segment prefixes — anything
+`parseRouteWritten` accepts) and every path that starts with a slash: the loop returns the handler
+of the innermost configured mounted app whose prefix — plain text compared as the router compares
+(leading slash, letter case), a route pattern matched by fiber's own `RoutePatternMatch` on the
+leading segments of the path — contains the path on a segment boundary. -/
+theorem select_eq_spec_router (chk : C02.Constraint → Bytes → Bool) (cfg : Cfg) (l : List Mounted) (path : Bytes)
+    (hnd : (l.map (fun m => slashKey m.pre)).Nodup) (hkeys : ParamKeys cfg l) (hpath : path.head? = some 47) :
+    select chk cfg l path = selectSpec cfg (coversRouter chk cfg) l path :=
+  select_eq_spec_of_cover chk cfg _ l path hnd
+    (fun m hm hp => modelCover_eq_coversRouter chk cfg m.pre path (hkeys m hm hp) hpath)
 
-/-- K1 on the real code's model: an app mounted at `/:tenant` with its own handler, request
-`/acme/e` — the sentence designates handler 1, the loop selects none (the root's runs). -/
-theorem select_eq_spec_witness_K1 :
-    ¬ (select ⟨false, false⟩ [⟨[], some ⟨0, false⟩⟩, ⟨b "/:tenant", some ⟨1, false⟩⟩] (b "/acme/e") =
-       selectSpec ⟨false, false⟩ [⟨[], some ⟨0, false⟩⟩, ⟨b "/:tenant", some ⟨1, false⟩⟩] (b "/acme/e")) := by
+/-- a table with a parameterised, a constrained and a wildcard prefix next to plain ones (one key
+without leading slash): the hypotheses hold, and the loop's choice under the real built-in
+constraint check -/
+def exTable : List Mounted := [⟨[], some ⟨0, false⟩⟩, ⟨b "/org/:tenant", some ⟨1, false⟩⟩, ⟨b "/acme/sub", some ⟨2, false⟩⟩,
+  ⟨b "/t/:id<int>", some ⟨3, false⟩⟩, ⟨b "files/*", some ⟨4, true⟩⟩]
+
+example : (exTable.map (fun m => slashKey m.pre)).Nodup ∧ ParamKeys ⟨false, false⟩ exTable ∧
+    (b "/acme/e").head? = some 47 := by decide
+
+example : select (C02.checkConstraint [] (fun _ _ => true)) ⟨false, false⟩ exTable (b "/org/acme/e") = some ⟨1, false⟩ ∧
+    select (C02.checkConstraint [] (fun _ _ => true)) ⟨false, false⟩ exTable (b "/ACME/sub/e") = some ⟨2, false⟩ ∧
+    select (C02.checkConstraint [] (fun _ _ => true)) ⟨false, false⟩ exTable (b "/t/42/e") = some ⟨3, false⟩ ∧
+    select (C02.checkConstraint [] (fun _ _ => true)) ⟨false, false⟩ exTable (b "/t/ab/e") = none ∧
+    select (C02.checkConstraint [] (fun _ _ => true)) ⟨false, false⟩ exTable (b "/files/a/b.txt") = some ⟨4, true⟩ ∧
+    select (C02.checkConstraint [] (fun _ _ => true)) ⟨false, false⟩ exTable (b "/") = none := by decide
+
+/-- The former known finding K1 on the repaired code: an app mounted at `/:tenant` with its own
+handler, request `/acme/e`. The loop as it was between F3 and F4 (`selectLit`: every key compared
+literally) selects none — the root's handler ran; the repaired loop selects handler 1, which is
+what the sentence designates (tokens reading and router's reading alike). -/
+theorem K1_repaired :
+    selectLit ⟨false, false⟩ [⟨[], some ⟨0, false⟩⟩, ⟨b "/:tenant", some ⟨1, false⟩⟩] (b "/acme/e") = none ∧
+    select (fun _ _ => true) ⟨false, false⟩ [⟨[], some ⟨0, false⟩⟩, ⟨b "/:tenant", some ⟨1, false⟩⟩] (b "/acme/e")
+      = some ⟨1, false⟩ ∧
+    selectSpec ⟨false, false⟩ (coversPat ⟨false, false⟩) [⟨[], some ⟨0, false⟩⟩, ⟨b "/:tenant", some ⟨1, false⟩⟩]
+      (b "/acme/e") = some ⟨1, false⟩ ∧
+    selectSpec ⟨false, false⟩ (coversRouter (fun _ _ => true) ⟨false, false⟩)
+      [⟨[], some ⟨0, false⟩⟩, ⟨b "/:tenant", some ⟨1, false⟩⟩] (b "/acme/e") = some ⟨1, false⟩ := by
   decide
 
-example : K1 ⟨false, false⟩ [⟨[], some ⟨0, false⟩⟩, ⟨b "/:tenant", some ⟨1, false⟩⟩] (b "/acme/e") = true := by
+/-- Finding F5 on the repaired code: an app mounted at "/" inside an app mounted under `/:t`, both
+with their own handler (appList keys `/:t` and `/:t/`), request `/acme/e`: both prefixes account for
+the same five bytes of the path; the nested app's prefix extends the outer one's, sorts last, and
+is chosen — by the loop and by the spec (router's reading; `/:t/` is outside the tokens fragment). -/
+theorem F5_repaired :
+    select (fun _ _ => true) ⟨false, false⟩
+      (appList (some ⟨0, false⟩) [.mk [] (b "/:t") (some ⟨1, false⟩) [.mk [] (b "/") (some ⟨2, false⟩) []]]) (b "/acme/e")
+      = some ⟨2, false⟩ ∧
+    selectSpec ⟨false, false⟩ (coversRouter (fun _ _ => true) ⟨false, false⟩)
+      (appList (some ⟨0, false⟩) [.mk [] (b "/:t") (some ⟨1, false⟩) [.mk [] (b "/") (some ⟨2, false⟩) []]]) (b "/acme/e")
+      = some ⟨2, false⟩ ∧
+    (appList (some ⟨0, false⟩) [.mk [] (b "/:t") (some ⟨1, false⟩) [.mk [] (b "/") (some ⟨2, false⟩) []]]).map (·.pre)
+      = [[], b "/:t", b "/:t/"] := by
   decide
 
-/-- The region K1 is no wider than the defect: when every mounted app has its own handler value
-(no two entries share one), EVERY table/path inside K1 is a genuine failure — the loop does not
-return the handler the sentence designates. -/
-theorem K1_is_failure (cfg : Cfg) (l : List Mounted) (path : Bytes)
-    (hown : ∀ x ∈ l, ∀ y ∈ l, x.own ≠ none → x.own = y.own → x = y)
-    (hK : K1 cfg l path = true) : select cfg l path ≠ selectSpec cfg l path := by
-  unfold K1 at hK
-  unfold selectSpec
-  cases hi : innermost cfg path (candidates cfg l path) with
-  | none => rw [hi] at hK; cases hK
-  | some z =>
-    rw [hi] at hK
-    have hzl : contains cfg z.pre path = false := by simpa using hK
-    obtain ⟨hz, _⟩ := innermost_some hi
-    have hzm := mem_candidates.mp hz
-    show select cfg l path ≠ z.own
-    rcases select_char cfg l path with ⟨_, hs⟩ | ⟨x, hbest, hs⟩
-    · rw [hs]; exact fun h => hzm.2.2.1 h.symm
-    · rw [hs]
-      intro hxz
-      have hxl := (cand_iff_literal.mp hbest.2.1)
-      have := hown x hbest.1 z hzm.1 hxl.2.1 hxz
-      subst this
-      rw [hxl.2.2] at hzl; cases hzl
+/-- every key of the table that is a route pattern lies in the tokens fragment (`TokenKey`: plain
+text and whole-segment named parameters, `/:tenant`, `/:t/api`, `/api/:id`, `/:a/:b` …) -/
+def TokenTable (cfg : Cfg) (l : List Mounted) : Prop :=
+  ∀ m ∈ l, isPattern m.pre = true → TokenKey cfg m.pre = true
 
-example : ∀ x ∈ ([⟨[], some ⟨0, false⟩⟩, ⟨b "/:tenant", some ⟨1, false⟩⟩] : List Mounted),
-    ∀ y ∈ ([⟨[], some ⟨0, false⟩⟩, ⟨b "/:tenant", some ⟨1, false⟩⟩] : List Mounted),
-    x.own ≠ none → x.own = y.own → x = y := by decide
+instance (cfg : Cfg) (l : List Mounted) : Decidable (TokenTable cfg l) := by unfold TokenTable; exact inferInstance
 
-/-- no key of the table has a parameter segment -/
-def LiteralTable (l : List Mounted) : Prop := l.all (fun m => paramFree m.pre) = true
+/-- every key of the table that is a route pattern has the tokens SHAPE: with the leading slash it
+is spelled by a well-formed list of pieces (`wf`, Fragment.lean: plain text — letters, digits,
+`/ - _ .` — and whole-segment named parameters `:name` with names of letters, digits, `_`; it begins
+with a slash and does not end in one). Purely syntactic; `TokenTable` is a decidable sufficient
+condition (`shapeTable_of_tokenTable`). -/
+def ShapeTable (l : List Mounted) : Prop :=
+  ∀ m ∈ l, isPattern m.pre = true → ∃ f : List Piece, wf f = true ∧ mountedAt m.pre = render f
+
+theorem shapeTable_of_tokenTable {cfg : Cfg} {l : List Mounted} (h : TokenTable cfg l) : ShapeTable l := by
+  intro m hm hp
+  have := h m hm hp
+  unfold TokenKey at this
+  simp only [Bool.and_eq_true, beq_iff_eq] at this
+  exact ⟨_, this.1.1.1.1, this.1.1.1.2.symm⟩
+
+/-- **Full strength, the tokens reading** (the reading written from scratch in Spec: a segment
+`:name` stands for any non-empty path segment, everything else is literal). For every configuration,
+constraint verdict and path, and every table whose pattern keys are whole-segment parameterised
+prefixes (`ShapeTable`, a purely syntactic condition) — plain tables included —: the loop returns
+the handler of the innermost configured mounted app whose prefix contains the path on a segment
+boundary. Behind it: what fiber's parser makes of such a key (`parseRoute_frag`), what fiber's
+matcher does with those segments (`getMatch_segsOf`), the loop over the cuts (`cover_of_segs`).
+(This is the statement that carried the hypothesis `K1 = false` before the repair.) -/
+theorem select_eq_spec (chk : C02.Constraint → Bytes → Bool) (cfg : Cfg) (l : List Mounted) (path : Bytes)
+    (hnd : (l.map (fun m => slashKey m.pre)).Nodup) (hshape : ShapeTable l) :
+    select chk cfg l path = selectSpec cfg (coversPat cfg) l path :=
+  select_eq_spec_of_cover chk cfg _ l path hnd
+    (fun m hm hp => by
+      obtain ⟨f, hwf, hk⟩ := hshape m hm hp
+      exact modelCover_eq_coversPat_of_wf chk cfg m.pre path f hwf hk)
+
+/-- a table with parameterised prefixes at several depths, one key without leading slash, mixed
+case: the hypotheses of `select_eq_spec` hold -/
+def exTokens : List Mounted := [⟨[], some ⟨0, false⟩⟩, ⟨b "/:tenant", some ⟨1, false⟩⟩, ⟨b "/:tenant/in", some ⟨2, false⟩⟩,
+  ⟨b "/acme", some ⟨3, false⟩⟩, ⟨b ":T/Adm/:id", some ⟨4, true⟩⟩, ⟨b "/API", none⟩]
+
+example : (exTokens.map (fun m => slashKey m.pre)).Nodup ∧ TokenTable ⟨false, false⟩ exTokens ∧ TokenTable ⟨true, true⟩ exTokens := by
+  decide
+
+example : ShapeTable exTokens := shapeTable_of_tokenTable (cfg := ⟨false, false⟩) (by decide)
+
+example : selectSpec ⟨false, false⟩ (coversPat ⟨false, false⟩) exTokens (b "/zeta/e") = some ⟨1, false⟩ ∧
+    selectSpec ⟨false, false⟩ (coversPat ⟨false, false⟩) exTokens (b "/zeta/IN/e") = some ⟨2, false⟩ ∧
+    selectSpec ⟨false, false⟩ (coversPat ⟨false, false⟩) exTokens (b "/acme/e") = some ⟨3, false⟩ ∧
+    selectSpec ⟨false, false⟩ (coversPat ⟨false, false⟩) exTokens (b "/x/adm/7/") = some ⟨4, true⟩ ∧
+    selectSpec ⟨false, false⟩ (coversPat ⟨false, false⟩) exTokens (b "/") = none := by decide
+
+/-- no key of the table is a route pattern -/
+def LiteralTable (l : List Mounted) : Prop := l.all (fun m => !isPattern m.pre) = true
 
 instance (l : List Mounted) : Decidable (LiteralTable l) := by unfold LiteralTable; exact inferInstance
 
-theorem K1_false_of_literal {cfg : Cfg} {l : List Mounted} {path : Bytes} (hlit : LiteralTable l) :
-    K1 cfg l path = false := by
-  unfold K1
-  cases hi : innermost cfg path (candidates cfg l path) with
-  | none => rfl
-  | some z =>
-    obtain ⟨hz, _⟩ := innermost_some hi
-    have hzm := mem_candidates.mp hz
-    have : contains cfg z.pre path = true := by
-      rcases hzm.2.2.2 with h | h
-      · exact h
-      · exact coversPat_paramFree (List.all_eq_true.mp hlit z hzm.1) h
-    simp [this]
-
-/-- For every table without parameterised prefixes — under every configuration (CaseSensitive or
-not), keys with or without leading slash — the loop returns the spec's choice (full strength). -/
-theorem select_eq_spec (cfg : Cfg) (l : List Mounted) (path : Bytes)
-    (hnd : (l.map (fun m => normKey cfg m.pre)).Nodup) (hlit : LiteralTable l) :
-    select cfg l path = selectSpec cfg l path :=
-  select_eq_spec_partial cfg l path hnd (K1_false_of_literal hlit)
+theorem shapeTable_of_literal {l : List Mounted} (h : LiteralTable l) : ShapeTable l := by
+  intro m hm hp
+  have := List.all_eq_true.mp h m hm
+  simp [hp] at this
 
 example : LiteralTable [⟨[], none⟩, ⟨b "/api", some ⟨1, false⟩⟩, ⟨b "api-v2", some ⟨2, false⟩⟩, ⟨b "/API/v2", none⟩] := by
   decide
 
 /-- The selected handler does not depend on the order in which the map is iterated — for every
-table (parameterised prefixes included) and every configuration. -/
-theorem select_perm_invariant {cfg : Cfg} {l₁ l₂ : List Mounted} (path : Bytes) (h : l₁.Perm l₂)
-    (hnd : (l₁.map (fun m => normKey cfg m.pre)).Nodup) : select cfg l₁ path = select cfg l₂ path := by
-  have hnd₂ : (l₂.map (fun m => normKey cfg m.pre)).Nodup := (h.map _).nodup_iff.mp hnd
-  have hbest : ∀ x, Best cfg l₁ path x → Best cfg l₂ path x := by
-    intro x hx
-    exact ⟨h.mem_iff.mp hx.1, hx.2.1, fun y hy hc => hx.2.2 y (h.mem_iff.mpr hy) hc⟩
-  rcases select_char cfg l₁ path with ⟨hno₁, hs₁⟩ | ⟨x, hb₁, hs₁⟩
-  · rcases select_char cfg l₂ path with ⟨_, hs₂⟩ | ⟨y, hb₂, _⟩
+table (every kind of prefix), every configuration and constraint verdict. -/
+theorem select_perm_invariant {chk : C02.Constraint → Bytes → Bool} {cfg : Cfg} {l₁ l₂ : List Mounted} (path : Bytes)
+    (h : l₁.Perm l₂) (hnd : (l₁.map (fun m => slashKey m.pre)).Nodup) :
+    select chk cfg l₁ path = select chk cfg l₂ path := by
+  have hnd₂ : (l₂.map (fun m => slashKey m.pre)).Nodup := (h.map _).nodup_iff.mp hnd
+  have hbest : ∀ x r, Best chk cfg l₁ path x r → Best chk cfg l₂ path x r := by
+    intro x r hx
+    exact ⟨h.mem_iff.mp hx.1, hx.2.1, fun y hy t hc => hx.2.2 y (h.mem_iff.mpr hy) t hc⟩
+  rcases select_char chk cfg l₁ path with ⟨hno₁, hs₁⟩ | ⟨x, r, hb₁, hs₁⟩
+  · rcases select_char chk cfg l₂ path with ⟨_, hs₂⟩ | ⟨y, t, hb₂, _⟩
     · rw [hs₁, hs₂]
-    · exact absurd hb₂.2.1 (hno₁ y (h.mem_iff.mpr hb₂.1))
-  · rcases select_char cfg l₂ path with ⟨hno₂, _⟩ | ⟨y, hb₂, hs₂⟩
-    · exact absurd hb₁.2.1 (hno₂ x (h.mem_iff.mp hb₁.1))
-    · have := best_unique hnd₂ (hbest x hb₁) hb₂
+    · exact absurd hb₂.2.1 (hno₁ y (h.mem_iff.mpr hb₂.1) t)
+  · rcases select_char chk cfg l₂ path with ⟨hno₂, _⟩ | ⟨y, t, hb₂, hs₂⟩
+    · exact absurd hb₁.2.1 (hno₂ x (h.mem_iff.mp hb₁.1) r)
+    · have := best_unique hnd₂ (hbest x r hb₁) hb₂
       subst this
       rw [hs₁, hs₂]
 
@@ -212,20 +223,46 @@ example : [⟨b "/api", some ⟨1, false⟩⟩, ⟨b "/api-v2", some ⟨2, false
     [⟨b "/api-v2", some ⟨2, false⟩⟩, (⟨b "/api", some ⟨1, false⟩⟩ : Mounted)] :=
   List.Perm.swap _ _ _
 
+theorem nodup_of_map_comp {α β γ} (f : α → β) (g : β → γ) {l : List α}
+    (h : (l.map (g ∘ f)).Nodup) : (l.map f).Nodup := by
+  induction l with
+  | nil => simp
+  | cons x t ih =>
+    simp only [List.map_cons, List.nodup_cons, List.mem_map, not_exists, not_and, Function.comp] at h ⊢
+    refine ⟨?_, ih h.2⟩
+    intro y hy hxy
+    exact h.1 y hy (by rw [hxy])
+
+/-- the hypothesis the earlier versions of these theorems carried (keys pairwise different as the
+router tells mount points apart: leading slash, letter case) implies the present, weaker one -/
+theorem nodup_slashKey_of_normKey {cfg : Cfg} {l : List Mounted}
+    (h : (l.map (fun m => normKey cfg m.pre)).Nodup) : (l.map (fun m => slashKey m.pre)).Nodup := by
+  have hg : (fun m : Mounted => normKey cfg m.pre) =
+      (fun s : Bytes => if s = [] then [] else fold cfg s) ∘ (fun m : Mounted => slashKey m.pre) := by
+    funext m
+    simp only [Function.comp, normKey, slashKey]
+    by_cases hk : m.pre = []
+    · simp [hk]
+    · have : mountedAt m.pre ≠ [] := ensureSlash_ne_nil _
+      simp [hk, this]
+  rw [hg] at h
+  exact nodup_of_map_comp _ _ h
+
 /-- the code before the first fix: the same table, two iteration orders, two different handlers -/
 theorem old_order_dependent :
     selectOld [⟨b "/api", some ⟨1, false⟩⟩, ⟨b "/api-v2", some ⟨2, false⟩⟩] (b "/api-v2/x") ≠
     selectOld [⟨b "/api-v2", some ⟨2, false⟩⟩, ⟨b "/api", some ⟨1, false⟩⟩] (b "/api-v2/x") := by decide
 
-theorem funnel_of_select {cfg : Cfg} {l l' : List Mounted} (rootOwn : Option Own) (path : Bytes)
-    (chain : Option Err) (hsel : select cfg l' path = selectSpec cfg l path) :
-    funnel cfg l' rootOwn path chain = expected cfg l rootOwn path chain := by
+theorem funnel_of_select {chk : C02.Constraint → Bytes → Bool} {cfg : Cfg} {cov : Cover} {l l' : List Mounted}
+    (rootOwn : Option Own) (path : Bytes)
+    (chain : Option Err) (hsel : select chk cfg l' path = selectSpec cfg cov l path) :
+    funnel chk cfg l' rootOwn path chain = expected cfg cov l rootOwn path chain := by
   cases chain with
   | none => rfl
   | some e =>
     unfold funnel expected errorHandler designated
     rw [hsel]
-    cases hs : selectSpec cfg l path with
+    cases hs : selectSpec cfg cov l path with
     | some o =>
       simp only [invoke]
       by_cases hf : o.fails <;> simp [hf]
@@ -236,68 +273,170 @@ theorem funnel_of_select {cfg : Cfg} {l l' : List Mounted} (rootOwn : Option Own
         simp only [invoke]
         by_cases hf : o.fails <;> simp [hf]
 
-/-- Outside K1 the funnel meets the spec for EVERY iteration order of the map: the outcome (who ran
-and how often, status, body) is the one the property designates.
-Full statement (false on the unchanged tree, see `funnel_meets_spec_witness_K1`): the same without `hK`. -/
-theorem funnel_meets_spec_partial {cfg : Cfg} {l l' : List Mounted} (rootOwn : Option Own) (path : Bytes)
-    (chain : Option Err) (hperm : l.Perm l') (hnd : (l.map (fun m => normKey cfg m.pre)).Nodup)
-    (hK : K1 cfg l path = false) :
-    funnel cfg l' rootOwn path chain = expected cfg l rootOwn path chain :=
+/-- Generic in the reading: the funnel meets the spec for EVERY iteration order of the map — the
+outcome (who ran and how often, status, body) is the one the property designates. -/
+theorem funnel_meets_spec_of_reading {chk : C02.Constraint → Bytes → Bool} {cfg : Cfg} {cov : Cover}
+    {l l' : List Mounted} (rootOwn : Option Own) (path : Bytes)
+    (chain : Option Err) (hperm : l.Perm l') (hnd : (l.map (fun m => slashKey m.pre)).Nodup)
+    (hcov : ∀ m ∈ l, isPattern m.pre = true → modelCover chk cfg m.pre path = cov m.pre path) :
+    funnel chk cfg l' rootOwn path chain = expected cfg cov l rootOwn path chain :=
   funnel_of_select rootOwn path chain
-    (by rw [← select_perm_invariant path hperm hnd, select_eq_spec_partial cfg l path hnd hK])
+    (by rw [← select_perm_invariant path hperm hnd, select_eq_spec_of_cover chk cfg cov l path hnd hcov])
 
-theorem funnel_meets_spec_witness_K1 :
-    ¬ (funnel ⟨false, false⟩ [⟨[], some ⟨0, false⟩⟩, ⟨b "/:tenant", some ⟨1, false⟩⟩] (some ⟨0, false⟩)
-        (b "/acme/e") (some (.plain (b "boom"))) =
-       expected ⟨false, false⟩ [⟨[], some ⟨0, false⟩⟩, ⟨b "/:tenant", some ⟨1, false⟩⟩] (some ⟨0, false⟩)
-        (b "/acme/e") (some (.plain (b "boom")))) := by
-  decide
+/-- **Full strength, the router's reading**: for every configuration, constraint verdict, table,
+iteration order, path (starting with a slash) and chain result the funnel's outcome is the one the
+property designates. -/
+theorem funnel_meets_spec_router {chk : C02.Constraint → Bytes → Bool} {cfg : Cfg} {l l' : List Mounted}
+    (rootOwn : Option Own) (path : Bytes) (chain : Option Err) (hperm : l.Perm l')
+    (hnd : (l.map (fun m => slashKey m.pre)).Nodup) (hkeys : ParamKeys cfg l) (hpath : path.head? = some 47) :
+    funnel chk cfg l' rootOwn path chain = expected cfg (coversRouter chk cfg) l rootOwn path chain :=
+  funnel_meets_spec_of_reading rootOwn path chain hperm hnd
+    (fun m hm hp => modelCover_eq_coversRouter chk cfg m.pre path (hkeys m hm hp) hpath)
 
-/-- For every table without parameterised prefixes the funnel meets the spec for every
-configuration, iteration order, path and chain result (full strength). -/
-theorem funnel_meets_spec {cfg : Cfg} {l l' : List Mounted} (rootOwn : Option Own) (path : Bytes)
-    (chain : Option Err) (hperm : l.Perm l') (hnd : (l.map (fun m => normKey cfg m.pre)).Nodup)
-    (hlit : LiteralTable l) :
-    funnel cfg l' rootOwn path chain = expected cfg l rootOwn path chain :=
-  funnel_meets_spec_partial rootOwn path chain hperm hnd (K1_false_of_literal hlit)
+example : funnel (fun _ _ => true) ⟨false, false⟩ exTable (some ⟨0, false⟩) (b "/files/x") (some (.plain (b "boom")))
+    = some ⟨[.custom 4], 500, b "Internal Server Error"⟩ ∧
+  expected ⟨false, false⟩ (coversRouter (fun _ _ => true) ⟨false, false⟩) exTable (some ⟨0, false⟩) (b "/files/x")
+    (some (.plain (b "boom"))) = some ⟨[.custom 4], 500, b "Internal Server Error"⟩ := by decide
+
+/-- **Full strength, the tokens reading** (the statement that carried `K1 = false` before the repair). -/
+theorem funnel_meets_spec {chk : C02.Constraint → Bytes → Bool} {cfg : Cfg} {l l' : List Mounted}
+    (rootOwn : Option Own) (path : Bytes) (chain : Option Err) (hperm : l.Perm l')
+    (hnd : (l.map (fun m => slashKey m.pre)).Nodup) (hshape : ShapeTable l) :
+    funnel chk cfg l' rootOwn path chain = expected cfg (coversPat cfg) l rootOwn path chain :=
+  funnel_meets_spec_of_reading rootOwn path chain hperm hnd
+    (fun m hm hp => by
+      obtain ⟨f, hwf, hk⟩ := hshape m hm hp
+      exact modelCover_eq_coversPat_of_wf chk cfg m.pre path f hwf hk)
 
 /-- An error returned by the chain is delivered to exactly one handler exactly once; no error, no
 call. Every table, every configuration. -/
-theorem exactly_once (cfg : Cfg) (l : List Mounted) (rootOwn : Option Own) (path : Bytes) :
-    funnel cfg l rootOwn path none = none ∧
-    ∀ e, ∃ o, funnel cfg l rootOwn path (some e) = some o ∧ o.ran.length = 1 := by
+theorem exactly_once (chk : C02.Constraint → Bytes → Bool) (cfg : Cfg) (l : List Mounted) (rootOwn : Option Own)
+    (path : Bytes) :
+    funnel chk cfg l rootOwn path none = none ∧
+    ∀ e, ∃ o, funnel chk cfg l rootOwn path (some e) = some o ∧ o.ran.length = 1 := by
   refine ⟨rfl, ?_⟩
   intro e
   simp only [funnel]
-  generalize errorHandler cfg l rootOwn path e = x
+  generalize errorHandler chk cfg l rootOwn path e = x
   rcases x with ⟨r, _ | ⟨st, body⟩⟩
   · exact ⟨⟨[r], 500, b "Internal Server Error"⟩, rfl, rfl⟩
   · exact ⟨⟨[r], st, body⟩, rfl, rfl⟩
 
 /-- Under the default handler the status of a framework error value becomes the response status;
 any other error gives 500; the body is the error's message. -/
-theorem status_of_error (cfg : Cfg) (l : List Mounted) (path : Bytes) (e : Err)
-    (hsel : select cfg l path = none) :
-    funnel cfg l none path (some e) =
+theorem status_of_error (chk : C02.Constraint → Bytes → Bool) (cfg : Cfg) (l : List Mounted) (path : Bytes) (e : Err)
+    (hsel : select chk cfg l path = none) :
+    funnel chk cfg l none path (some e) =
       some ⟨[.default], (match e with | .fiber c _ => c | .plain _ => 500), e.msg⟩ := by
   unfold funnel errorHandler
   rw [hsel]
   cases e <;> simp [invoke, defaultHandler, Err.msg]
 
-example : funnel ⟨false, false⟩ (appList none []) none (b "/x") (some (.fiber 404 (b "Cannot GET /x")))
+example : funnel (fun _ _ => true) ⟨false, false⟩ (appList none []) none (b "/x") (some (.fiber 404 (b "Cannot GET /x")))
     = some ⟨[.default], 404, b "Cannot GET /x"⟩ := by decide
 
 /-- A failing error handler — mounted or root — yields a 500. -/
-theorem failing_handler_500 (cfg : Cfg) (l : List Mounted) (rootOwn : Option Own) (path : Bytes) (e : Err) (o : Own)
-    (hsel : select cfg l path = some o ∨ (select cfg l path = none ∧ rootOwn = some o)) (hf : o.fails = true) :
-    funnel cfg l rootOwn path (some e) = some ⟨[.custom o.id], 500, b "Internal Server Error"⟩ := by
+theorem failing_handler_500 (chk : C02.Constraint → Bytes → Bool) (cfg : Cfg) (l : List Mounted) (rootOwn : Option Own)
+    (path : Bytes) (e : Err) (o : Own)
+    (hsel : select chk cfg l path = some o ∨ (select chk cfg l path = none ∧ rootOwn = some o)) (hf : o.fails = true) :
+    funnel chk cfg l rootOwn path (some e) = some ⟨[.custom o.id], 500, b "Internal Server Error"⟩ := by
   unfold funnel errorHandler
   rcases hsel with hs | ⟨hs, hr⟩
   · rw [hs]; simp [invoke, hf]
   · rw [hs, hr]; simp [invoke, hf]
 
-example : funnel ⟨false, false⟩ (appList none [.mk [] (b "/api") (some ⟨1, true⟩) []]) none (b "/API/e")
+example : funnel (fun _ _ => true) ⟨false, false⟩ (appList none [.mk [] (b "/api") (some ⟨1, true⟩) []]) none (b "/API/e")
     (some (.plain (b "boom"))) = some ⟨[.custom 1], 500, b "Internal Server Error"⟩ := by decide
+
+/-! ### chains that hold fiber's logger middleware (it delivers the error itself) -/
+
+theorem throughLoggers_none (chk : C02.Constraint → Bytes → Bool) (cfg : Cfg) (l : List Mounted) (rootOwn : Option Own)
+    (paths : List Bytes) (p : Progress) : throughLoggers chk cfg l rootOwn paths none p = (p, none) := by
+  induction paths with
+  | nil => rfl
+  | cons x t ih => simp [throughLoggers, ih]
+
+/-- without a logger in the chain a request is the framework's funnel -/
+theorem request_nil (chk : C02.Constraint → Bytes → Bool) (cfg : Cfg) (l : List Mounted) (rootOwn : Option Own)
+    (fpath : Bytes) (origin : Option Err) :
+    request chk cfg l rootOwn [] fpath origin = funnel chk cfg l rootOwn fpath origin := by
+  cases origin with
+  | none => rfl
+  | some e =>
+    simp only [request, throughLoggers, deliver, funnel]
+    rcases errorHandler chk cfg l rootOwn fpath e with ⟨r, _ | ⟨st, body⟩⟩ <;> rfl
+
+/-- an error that comes back to a logger is delivered by that logger — for the path the logger
+sees, exactly as the framework's funnel would — and nobody behind it (outer loggers, the request
+handler) sees an error any more -/
+theorem request_logger (chk : C02.Constraint → Bytes → Bool) (cfg : Cfg) (l : List Mounted) (rootOwn : Option Own)
+    (path : Bytes) (outer : List Bytes) (fpath : Bytes) (e : Err) :
+    request chk cfg l rootOwn (path :: outer) fpath (some e) = funnel chk cfg l rootOwn path (some e) := by
+  simp only [request, throughLoggers, throughLoggers_none, deliver, funnel]
+  rcases errorHandler chk cfg l rootOwn path e with ⟨r, _ | ⟨st, body⟩⟩ <;> rfl
+
+theorem request_none (chk : C02.Constraint → Bytes → Bool) (cfg : Cfg) (l : List Mounted) (rootOwn : Option Own)
+    (loggers : List Bytes) (fpath : Bytes) : request chk cfg l rootOwn loggers fpath none = none := by
+  simp [request, throughLoggers_none]
+
+/-- **Exactly once, whatever the chain holds**: with any number of fiber's logger middlewares on
+the way back (root level, inside mounted apps, with or without a Skip predicate — each of them
+calls `c.App().ErrorHandler` itself and returns nil), an error is delivered to exactly one handler
+exactly once, and no error to none. -/
+theorem exactly_once_through_loggers (chk : C02.Constraint → Bytes → Bool) (cfg : Cfg) (l : List Mounted)
+    (rootOwn : Option Own) (loggers : List Bytes) (fpath : Bytes) :
+    request chk cfg l rootOwn loggers fpath none = none ∧
+    ∀ e, ∃ o, request chk cfg l rootOwn loggers fpath (some e) = some o ∧ o.ran.length = 1 := by
+  refine ⟨request_none chk cfg l rootOwn loggers fpath, ?_⟩
+  intro e
+  cases loggers with
+  | nil => rw [request_nil]; exact (exactly_once chk cfg l rootOwn fpath).2 e
+  | cons path outer => rw [request_logger]; exact (exactly_once chk cfg l rootOwn path).2 e
+
+/-- the path the delivery is judged on: the innermost logger's, else the request handler's -/
+def deliveryPath (loggers : List Bytes) (fpath : Bytes) : Bytes := loggers.headD fpath
+
+/-- Generic in the reading: a request whose chain holds loggers meets the spec, for every iteration
+order of the map. -/
+theorem request_meets_spec_of_reading {chk : C02.Constraint → Bytes → Bool} {cfg : Cfg} {cov : Cover}
+    {l l' : List Mounted} (rootOwn : Option Own) (loggers : List Bytes) (fpath : Bytes) (origin : Option Err)
+    (hperm : l.Perm l') (hnd : (l.map (fun m => slashKey m.pre)).Nodup)
+    (hcov : ∀ m ∈ l, isPattern m.pre = true →
+      modelCover chk cfg m.pre (deliveryPath loggers fpath) = cov m.pre (deliveryPath loggers fpath)) :
+    request chk cfg l' rootOwn loggers fpath origin =
+      expected cfg cov l rootOwn (deliveryPath loggers fpath) origin := by
+  cases origin with
+  | none => rw [request_none]; rfl
+  | some e =>
+    cases loggers with
+    | nil => rw [request_nil]; exact funnel_meets_spec_of_reading rootOwn fpath _ hperm hnd hcov
+    | cons path outer => rw [request_logger]; exact funnel_meets_spec_of_reading rootOwn path _ hperm hnd hcov
+
+/-- … at full strength with the router's reading. -/
+theorem request_meets_spec_router {chk : C02.Constraint → Bytes → Bool} {cfg : Cfg} {l l' : List Mounted}
+    (rootOwn : Option Own) (loggers : List Bytes) (fpath : Bytes) (origin : Option Err) (hperm : l.Perm l')
+    (hnd : (l.map (fun m => slashKey m.pre)).Nodup) (hkeys : ParamKeys cfg l)
+    (hpath : (deliveryPath loggers fpath).head? = some 47) :
+    request chk cfg l' rootOwn loggers fpath origin =
+      expected cfg (coversRouter chk cfg) l rootOwn (deliveryPath loggers fpath) origin :=
+  request_meets_spec_of_reading rootOwn loggers fpath origin hperm hnd
+    (fun m hm hp => modelCover_eq_coversRouter chk cfg m.pre _ (hkeys m hm hp) hpath)
+
+/-- … and with the tokens reading. -/
+theorem request_meets_spec {chk : C02.Constraint → Bytes → Bool} {cfg : Cfg} {l l' : List Mounted}
+    (rootOwn : Option Own) (loggers : List Bytes) (fpath : Bytes) (origin : Option Err) (hperm : l.Perm l')
+    (hnd : (l.map (fun m => slashKey m.pre)).Nodup) (hshape : ShapeTable l) :
+    request chk cfg l' rootOwn loggers fpath origin =
+      expected cfg (coversPat cfg) l rootOwn (deliveryPath loggers fpath) origin :=
+  request_meets_spec_of_reading rootOwn loggers fpath origin hperm hnd
+    (fun m hm hp => by
+      obtain ⟨f, hwf, hk⟩ := hshape m hm hp
+      exact modelCover_eq_coversPat_of_wf chk cfg m.pre _ f hwf hk)
+
+example : request (fun _ _ => true) ⟨false, false⟩ exTable (some ⟨0, false⟩) [b "/org/acme/e", b "/org/acme/e"] (b "/org/acme/e")
+      (some (.fiber 404 (b "nope"))) = some ⟨[.custom 1], 418, b "eh1:nope"⟩ ∧
+    request (fun _ _ => true) ⟨false, false⟩ exTable (some ⟨0, false⟩) [] (b "/zzz") (some (.plain (b "boom")))
+      = some ⟨[.custom 0], 418, b "eh0:boom"⟩ := by decide
 
 /-! ### errors before routing -/
 
@@ -327,31 +466,45 @@ theorem server_error_status (e : SrvErr) :
 
 /-- A server error (header too large, body too large, bad request, …) is delivered exactly once to
 exactly one handler, for every table, order and configuration. -/
-theorem server_exactly_once (cfg : Cfg) (l : List Mounted) (rootOwn : Option Own) (path : Bytes) (e : SrvErr) :
-    ∃ o, serverFunnel cfg l rootOwn path e = some o ∧ o.ran.length = 1 :=
-  (exactly_once cfg l rootOwn path).2 (mapServerErr e)
+theorem server_exactly_once (chk : C02.Constraint → Bytes → Bool) (cfg : Cfg) (l : List Mounted) (rootOwn : Option Own)
+    (path : Bytes) (e : SrvErr) :
+    ∃ o, serverFunnel chk cfg l rootOwn path e = some o ∧ o.ran.length = 1 :=
+  (exactly_once chk cfg l rootOwn path).2 (mapServerErr e)
 
-/-- Outside K1, for every iteration order: the server-error funnel calls the handler designated for
-the path the broken request's context carries, with the status/body of the spec's table. -/
-theorem server_funnel_meets_spec_partial {cfg : Cfg} {l l' : List Mounted} (rootOwn : Option Own)
-    (path : Bytes) (e : SrvErr) (hperm : l.Perm l') (hnd : (l.map (fun m => normKey cfg m.pre)).Nodup)
-    (hK : K1 cfg l path = false) :
-    serverFunnel cfg l' rootOwn path e = expectedServer cfg l rootOwn path e := by
+/-- Generic in the reading, for every iteration order: the server-error funnel calls the handler
+designated for the path the broken request's context carries, with the status/body of the spec's
+table. -/
+theorem server_funnel_meets_spec_of_reading {chk : C02.Constraint → Bytes → Bool} {cfg : Cfg} {cov : Cover}
+    {l l' : List Mounted} (rootOwn : Option Own)
+    (path : Bytes) (e : SrvErr) (hperm : l.Perm l') (hnd : (l.map (fun m => slashKey m.pre)).Nodup)
+    (hcov : ∀ m ∈ l, isPattern m.pre = true → modelCover chk cfg m.pre path = cov m.pre path) :
+    serverFunnel chk cfg l' rootOwn path e = expectedServer cfg cov l rootOwn path e := by
   unfold serverFunnel expectedServer
   rw [mapServerErr_eq_spec]
-  exact funnel_meets_spec_partial rootOwn path _ hperm hnd hK
+  exact funnel_meets_spec_of_reading rootOwn path _ hperm hnd hcov
 
-/-- … and at full strength for tables without parameterised prefixes. -/
-theorem server_funnel_meets_spec {cfg : Cfg} {l l' : List Mounted} (rootOwn : Option Own)
-    (path : Bytes) (e : SrvErr) (hperm : l.Perm l') (hnd : (l.map (fun m => normKey cfg m.pre)).Nodup)
-    (hlit : LiteralTable l) :
-    serverFunnel cfg l' rootOwn path e = expectedServer cfg l rootOwn path e :=
-  server_funnel_meets_spec_partial rootOwn path e hperm hnd (K1_false_of_literal hlit)
+/-- … at full strength with the router's reading. -/
+theorem server_funnel_meets_spec_router {chk : C02.Constraint → Bytes → Bool} {cfg : Cfg} {l l' : List Mounted}
+    (rootOwn : Option Own) (path : Bytes) (e : SrvErr) (hperm : l.Perm l')
+    (hnd : (l.map (fun m => slashKey m.pre)).Nodup) (hkeys : ParamKeys cfg l) (hpath : path.head? = some 47) :
+    serverFunnel chk cfg l' rootOwn path e = expectedServer cfg (coversRouter chk cfg) l rootOwn path e :=
+  server_funnel_meets_spec_of_reading rootOwn path e hperm hnd
+    (fun m hm hp => modelCover_eq_coversRouter chk cfg m.pre path (hkeys m hm hp) hpath)
 
-example : serverFunnel ⟨false, false⟩ (appList none [.mk [] (b "/api") (some ⟨1, false⟩) []]) none (b "/")
+/-- … and with the tokens reading (the statement that carried `K1 = false` before the repair). -/
+theorem server_funnel_meets_spec {chk : C02.Constraint → Bytes → Bool} {cfg : Cfg} {l l' : List Mounted}
+    (rootOwn : Option Own) (path : Bytes) (e : SrvErr) (hperm : l.Perm l')
+    (hnd : (l.map (fun m => slashKey m.pre)).Nodup) (hshape : ShapeTable l) :
+    serverFunnel chk cfg l' rootOwn path e = expectedServer cfg (coversPat cfg) l rootOwn path e :=
+  server_funnel_meets_spec_of_reading rootOwn path e hperm hnd
+    (fun m hm hp => by
+      obtain ⟨f, hwf, hk⟩ := hshape m hm hp
+      exact modelCover_eq_coversPat_of_wf chk cfg m.pre path f hwf hk)
+
+example : serverFunnel (fun _ _ => true) ⟨false, false⟩ (appList none [.mk [] (b "/api") (some ⟨1, false⟩) []]) none (b "/")
       ⟨true, false, false, false, false, b "small read buffer"⟩
     = some ⟨[.default], 431, b "Request Header Fields Too Large"⟩ ∧
-  serverFunnel ⟨false, false⟩ (appList none [.mk [] (b "/api") (some ⟨1, false⟩) []]) none (b "/api/p")
+  serverFunnel (fun _ _ => true) ⟨false, false⟩ (appList none [.mk [] (b "/:org/api") (some ⟨1, false⟩) []]) none (b "/acme/api/p")
       ⟨false, false, false, true, false, b "body size exceeds the given limit"⟩
     = some ⟨[.custom 1], 418, b "eh1:Request Entity Too Large"⟩ := by decide
 
